@@ -7,6 +7,8 @@ import (
 	"sort"
 	"strings"
 	"time"
+
+	"github.com/arana-db/parser/ast"
 )
 
 // txn is a write-set layered over committed data plus the row locks it holds.
@@ -441,7 +443,14 @@ func (s *session) execPiece(ctx context.Context, p *piece, args []interface{}) (
 			return nil, errLockWait
 		}
 		if timer == nil {
-			timer = time.After(e.lockWait)
+			wait := e.lockWait
+			// SELECT ... FOR UPDATE WAIT n gives up after n seconds (WAIT 0: at once), whatever the session's timeout
+			if sel, ok := p.node.(*ast.SelectStmt); ok && sel.LockInfo != nil && sel.LockInfo.LockType == ast.SelectLockForUpdateWaitN {
+				if limit := time.Duration(sel.LockInfo.WaitSec) * time.Second; limit < wait {
+					wait = limit
+				}
+			}
+			timer = time.After(wait)
 		}
 		ch := e.lockCh
 		var werr error
